@@ -531,6 +531,7 @@ SET_OPS = [
     {"kind": "value", "value": "z", "mustexist": False},
     {"kind": "value", "value": "7", "mustexist": False},
     {"kind": "value", "value": "z", "mustexist": True},
+    {"kind": "value", "value": "", "mustexist": False},          # --value= : the empty string is a value
     {"kind": "null", "mustexist": False},
     {"kind": "delete"},
 ]
@@ -906,6 +907,12 @@ def check_diff(ctx, case):
             col.witness("C16/yaml-diff/data-differ-but-exit-zero/%s" % diff_class(lplain, rplain),
                         "two different documents, exit 0 and no report (inherited from the Differ's report)", case,
                         observed={"exit": 0, "out": base["out"][:200]}, expected="exit 1 and entries")
+    # --quiet suppresses the report, not the verdict
+    rq = run_cli("diff", ["-q", lf, rf])
+    if base["code"] != "EXC" and (rq["code"] != base["code"] or rq["out"].strip() != ""):
+        col.witness("C16/yaml-diff/quiet-changes-the-exit-status-or-prints", "--quiet must only silence the report", case,
+                    observed={"exit": rq["code"], "out": rq["out"][:200], "exc": rq["exc"]},
+                    expected={"exit": base["code"], "out": ""})
     for name, r in runs[1:]:
         if (r["code"], r["out"]) != (base["code"], base["out"]):
             col.witness("C16/yaml-diff/%s-differs-from-files" % name, "stdin delivery changes the outcome", case,
